@@ -86,7 +86,7 @@ fn got_of(r: Result<Spelled<VOut>, String>) -> Vec<(&'static str, Exp)> {
         Err(_) => vec![("any", Exp::Panic)],
         Ok(rs) => rs
             .into_iter()
-            .map(|(sp, v)| (sp, match v { None => Exp::None, Some(l) => Exp::Val(l.into_iter().map(Some).collect()) }))
+            .map(|(sp, v)| (sp, match v { VOut::Panic => Exp::Panic, VOut::None => Exp::None, VOut::Val(l) => Exp::Val(l.into_iter().map(Some).collect()) }))
             .collect(),
     }
 }
@@ -223,7 +223,7 @@ fn run_case<V: IV>(cx: &mut Cx, c: &Value) {
             let exp = exp_vec(e);
             let x = V::from_i(&la);
             let y = V::from_i(&lb);
-            let g = match catch(|| x.cross_(y)) { Err(_) => Exp::Panic, Ok(Some(Some(l))) => Exp::Val(l.into_iter().map(Some).collect()), Ok(_) => return };
+            let g = match catch(|| x.cross_(y)) { Err(_) | Ok(Some(VOut::Panic)) => Exp::Panic, Ok(Some(VOut::Val(l))) => Exp::Val(l.into_iter().map(Some).collect()), Ok(_) => return };
             report::<V>(cx, c, "method", 0, json!([la, lb]), &exp, &g);
         }
         _ => panic!("kind {kind}"),
